@@ -157,7 +157,10 @@ def make_csr(D, a, rng, variant):
             rng.shuffle(zs)
             cols += zs[:rng.randint(0, min(2, len(zs)))]
         if variant in ("unsorted", "structzero"):
+            before = list(cols)
             rng.shuffle(cols)
+            if cols == before and len(cols) > 1:
+                cols.reverse()
         indices += cols
         data += [a[i, j] for j in cols]
         indptr.append(len(indices))
@@ -188,6 +191,15 @@ def make_dia(D, a, rng, variant):
                 data[k, j] = complex(*gz(rng, nonzero=True))
     from qutip.core.data.base import idxint_dtype
     return D.Dia((data, np.array(offs, dtype=idxint_dtype)), shape=(r, c))
+
+
+def pick_rep(rng, t):
+    """representation variant of type t; non-canonical ones are favoured"""
+    if t == "CSR":
+        return ("CSR", rng.choice(["sorted", "unsorted", "unsorted", "structzero", "structzero"]))
+    if t == "Dia":
+        return ("Dia", rng.choice(["sorted", "unsorted", "garbage", "garbage"]))
+    return ("Dense", rng.choice(["C", "F"]))
 
 
 REPRS = [("Dense", "C"), ("Dense", "F"),
@@ -261,11 +273,15 @@ def exact_int(a):
 # ================================================================== operations
 class Op:
     def __init__(self, name, nin, ref, shapes, out=True, extra=None, getter=None,
-                 scalar=False, guard=None, approx=False, kw=None):
+                 scalar=False, guard=None, approx=False, kw=None, more=None, weight=1,
+                 combos=None, no_lookup=False):
         self.name, self.nin, self.ref, self.shapes = name, nin, ref, shapes
         self.out, self.extra, self.getter = out, extra, getter
         self.scalar, self.guard, self.approx = scalar, guard, approx
         self.kw = kw
+        # more(rng, shapes, extra) -> further argument tuples tried on the same
+        # operands (all target shapes / selections / orders, not one draw)
+        self.more, self.weight, self.combos, self.no_lookup = more, weight, combos, no_lookup
 
 
 def _ptrace_ref(a, dims, sel):
@@ -324,6 +340,8 @@ def build_ops(D):
     ops = []
 
     def any_shape(rng):
+        if rng.random() < 0.5:
+            return (rng.randint(1, 6), rng.randint(1, 6))
         return gen_shape(rng, rng.choice(SHAPE_CLASSES))
 
     def sq_shape(rng):
@@ -375,7 +393,7 @@ def build_ops(D):
     def kron_shapes(rng):
         return [gen_shape(rng, rng.choice(SHAPE_CLASSES)),
                 gen_shape(rng, rng.choice(SHAPE_CLASSES))], (), {}
-    ops.append(Op("kron", 2, lambda a, b: np.kron(a, b), kron_shapes))
+    ops.append(Op("kron", 2, lambda a, b: np.kron(a, b), kron_shapes, weight=2))
     ops.append(Op("kron_transpose", 2, lambda a, b: np.kron(a.T, b), kron_shapes))
 
     ops.append(Op("trace", 1, lambda a: np.trace(a), lambda rng: ([sq_shape(rng)], (), {}),
@@ -394,18 +412,32 @@ def build_ops(D):
         divs = [d for d in range(1, n + 1) if n % d == 0]
         r = rng.choice(divs)
         return [s], (r, n // r), {}
-    ops.append(Op("reshape", 1, lambda a, r, c: a.reshape(r, c), reshape_shapes))
-    ops.append(Op("column_stack", 1, lambda a: a.reshape(-1, 1, order="F"), un(None)))
+    def reshape_more(rng, shapes, extra):
+        # every factorisation of the element count: narrower, wider multiple,
+        # wider non-multiple and coprime column counts
+        n = shapes[0][0] * shapes[0][1]
+        return [(r, n // r) for r in range(1, n + 1) if n % r == 0 and (r, n // r) != tuple(extra)]
+    ops.append(Op("reshape", 1, lambda a, r, c: a.reshape(r, c), reshape_shapes,
+                  more=reshape_more, weight=3))
+    ops.append(Op("column_stack", 1, lambda a: a.reshape(-1, 1, order="F"), un(None), weight=2))
+
+    def split_shapes(rng):
+        return [any_shape(rng)], (), {"copy": rng.random() < 0.5}
+    ops.append(Op("split_columns", 1, lambda a, copy=True: a, split_shapes, out=False, weight=2))
 
     def unstack_shapes(rng):
         r, c = rng.randint(1, 5), rng.randint(1, 5)
         return [(r * c, 1)], (r,), {}
+    def unstack_more(rng, shapes, extra):
+        n = shapes[0][0]
+        return [(r,) for r in range(1, n + 1) if n % r == 0 and r != extra[0]]
     ops.append(Op("column_unstack", 1, lambda a, r: a.reshape(r, -1, order="F"),
-                  unstack_shapes))
+                  unstack_shapes, more=unstack_more, weight=2))
 
     def pow_shapes(rng):
         return [sq_shape(rng)], (rng.choice([0, 1, 2, 3]),), {}
-    ops.append(Op("pow", 1, lambda a, n: np.linalg.matrix_power(a, n), pow_shapes))
+    ops.append(Op("pow", 1, lambda a, n: np.linalg.matrix_power(a, n), pow_shapes,
+                  more=lambda rng, shapes, extra: [(k,) for k in range(0, 5) if k != extra[0]]))
 
     def proj_shapes(rng):
         n = rng.randint(1, 6)
@@ -422,7 +454,16 @@ def build_ops(D):
         if rng.random() < 0.3:
             rng.shuffle(sel)
         return [(N, N)], (list(dims), list(sel)), {}
-    ops.append(Op("ptrace", 1, lambda a, dims, sel: _ptrace_ref(a, dims, sel), ptrace_shapes))
+    def ptrace_more(rng, shapes, extra):
+        dims = extra[0]
+        sels = []
+        for k in range(len(dims) + 1):
+            for sel in itertools.combinations(range(len(dims)), k):
+                if list(sel) != sorted(extra[1]):
+                    sels.append((list(dims), list(sel)))
+        return sels
+    ops.append(Op("ptrace", 1, lambda a, dims, sel: _ptrace_ref(a, dims, sel), ptrace_shapes,
+                  more=ptrace_more, weight=2))
 
     def inner_shapes(rng):
         n = rng.randint(1, 6)
@@ -515,8 +556,12 @@ def build_ops(D):
         rng.shuffle(order)
         sh = rng.choice([(N, N), (N, 1), (1, N)])
         return [sh], (list(dims), order), {}
+    def pdims_more(rng, shapes, extra):
+        dims = extra[0]
+        return [(list(dims), list(o)) for o in itertools.permutations(range(len(dims)))
+                if list(o) != list(extra[1])]
     ops.append(Op("permute.dimensions", 1, _perm_dims_ref, pdims_shapes,
-                  getter=permute.dimensions))
+                  getter=permute.dimensions, more=pdims_more, weight=2))
 
     def pind_shapes(rng):
         s = any_shape(rng)
@@ -535,7 +580,30 @@ def build_ops(D):
             for j in range(a.shape[1]):
                 out[rp[i], cp[j]] = a[i, j]
         return out
-    ops.append(Op("permute.indices", 1, pind_ref, pind_shapes, getter=permute.indices))
+    def pind_more(rng, shapes, extra):
+        out = []
+        for _ in range(3):
+            out.append(pind_shapes(rng)[1]) if False else None
+        s0 = shapes[0]
+        for _ in range(3):
+            rp, cp = list(range(s0[0])), list(range(s0[1]))
+            rng.shuffle(rp)
+            rng.shuffle(cp)
+            out.append(rng.choice([(rp, cp), (rp, None), (None, cp)]))
+        return out
+    ops.append(Op("permute.indices", 1, pind_ref, pind_shapes, getter=permute.indices,
+                  more=pind_more, weight=2))
+
+    # matmul with a caller-supplied `out` (either memory order): out += scale*l@r
+    def mmout_shapes(rng):
+        s0 = any_shape(rng)
+        k = rng.choice([1, 2, 3, 4])
+        v = rng.choice([(1, 0), (1, 0), (0, 1), (2, 0), (-1, 1)])
+        return [s0, (s0[1], k), (s0[0], k)], (complex(*v),), {}
+    ops.append(Op("matmul[out]", 3, lambda a, b, o, v: o + v * (a @ b), mmout_shapes, out=False,
+                  getter=lambda l, r, o, v: D.matmul(l, r, v, o),
+                  combos=[("Dense", "Dense", "Dense"), ("CSR", "Dense", "Dense"),
+                          ("Dia", "Dense", "Dense")], no_lookup=True, weight=2))
     for o in ops:
         if o.getter is None:
             o.getter = getattr(D, o.name)
@@ -594,6 +662,8 @@ def bad_shapes_for(op, shapes, extra, rng):
 def result_to_array(D, res):
     if isinstance(res, D.Data):
         return res.to_array()
+    if isinstance(res, list) and res and isinstance(res[0], D.Data):
+        return np.hstack([x.to_array() for x in res])
     return res
 
 
@@ -605,6 +675,8 @@ def run_op_case(D, op, arrays, reps, extra, kw, out_t, rng, how):
     types = [getattr(D, rep[0]) for rep in reps]
     journal({"op": op.name, "operands": raws, "extra": _js(extra), "kw": kw,
              "out": out_t, "how": how})
+    if op.no_lookup:
+        how = "call"
     try:
         if how == "lookup":
             key = tuple(types) + ((getattr(D, out_t),) if (op.out and out_t) else ())
@@ -616,8 +688,8 @@ def run_op_case(D, op, arrays, reps, extra, kw, out_t, rng, how):
             else:
                 res = op.getter(*args, *extra, **kw)
     except Exception as e:      # noqa
-        return ("raise", type(e).__name__ + ": " + str(e)[:120], raws, args)
-    return ("ok", res, raws, args)
+        return ("raise", type(e).__name__ + ": " + str(e)[:120], raws, args, how)
+    return ("ok", res, raws, args, how)
 
 
 def canon_scalar(v):
@@ -636,57 +708,68 @@ def oracle(ctx, D, budget_cases, rng, report=True, only=None, tag=0):
     dist = ctx.cov.setdefault("input_distribution", {})
     dshape = dist.setdefault("oracle_shape", {})
     dop = dist.setdefault("oracle_op", {})
+    wops = [o for o in ops for _ in range(o.weight)]
     for it in range(budget_cases):
-        op = ops[it % len(ops)]
+        op = wops[it % len(wops)]
         shapes, extra, kw = op.shapes(rng)
         arrays = [gen_matrix(rng, s, rng.choice(DENSITIES)) for s in shapes]
         if op.name == "isequal" and rng.random() < 0.5:
             arrays[1] = arrays[0].copy()
-        try:
-            ref = op.ref(*arrays, *extra, **kw)
-        except Exception as e:   # reference itself undefined -> skip
-            continue
         dop[op.name] = dop.get(op.name, 0) + 1
         for s in shapes:
             k = "%dx%d" % tuple(s)
             dshape[k] = dshape.get(k, 0) + 1
-        # all type combinations, representation variant drawn per operand
-        combos = list(itertools.product(TYPES, repeat=op.nin))
+        combos = op.combos or list(itertools.product(TYPES, repeat=op.nin))
         outs = [None] + (TYPES if op.out else [])
-        results = []
-        for combo in combos:
-            reps = [rng.choice([r for r in REPRS if r[0] == t]) for t in combo]
-            for out_t in outs:
-                how = rng.choice(["call", "lookup"])
-                kind, res, raws, args = run_op_case(D, op, arrays, reps, extra, kw, out_t, rng, how)
-                n += 1
-                ctx.count_case(("oracle", op.name, combo, out_t, it, tag),
-                               nontrivial=any(a.size > 1 and np.any(a) for a in arrays))
-                desc = {"op": op.name, "operands": raws, "extra": _js(extra), "kw": kw,
-                        "out": out_t, "how": how, "expected": _js_ref(ref)}
-                if kind == "raise":
-                    if report:
-                        dg = diagnose(D, op, combo, "raises", res, None, ref, arrays, args, extra, kw)
-                        site, sig = dg or ("oracle:" + op.name,
-                                           ["raises", list(combo), out_t, res.split(":")[0]])
-                        ctx.violation(
-                            site, sig,
-                            "%s[%s -> %s] raises %s on well-shaped operands" % (
-                                op.name, ",".join(combo), out_t, res), desc)
-                    results.append(("raise", res, combo, out_t))
-                    continue
-                bad = compare_result(D, op, res, ref, out_t, args, arrays, extra, kw)
-                if bad and report:
-                    desc["got"] = _js_ref(result_to_array(D, res))
-                    dg = diagnose(D, op, combo, bad[0], bad[1], res, ref, arrays, args, extra, kw)
-                    site, sig = dg or ("oracle:" + op.name, [bad[0], list(combo), out_t])
-                    ctx.violation(site, sig,
-                                  "%s[%s -> %s]: %s" % (op.name, ",".join(combo), out_t, bad[1]),
-                                  desc)
-                results.append(("ok", res, combo, out_t))
-                if ctx.cov.get("samples") is not None and len(ctx.cov["samples"]) < 3 and it > 5:
-                    ctx.sample({"oracle_case": {"op": op.name, "types": list(combo), "out": out_t,
-                                                "operands": raws, "expected": _js_ref(ref)}})
+
+        def check(extra_, all_outs):
+            nchk = 0
+            try:
+                ref = op.ref(*arrays, *extra_, **kw)
+            except Exception:   # noqa  reference itself undefined -> skip
+                return 0
+            for combo in combos:
+                reps = [pick_rep(rng, t) for t in combo]
+                for out_t in (outs if all_outs else [rng.choice(outs)]):
+                    how = rng.choice(["call", "lookup"])
+                    kind, res, raws, args, how = run_op_case(D, op, arrays, reps, extra_, kw,
+                                                             out_t, rng, how)
+                    nchk += 1
+                    ctx.count_case(("oracle", op.name, combo, out_t, it, tag, repr(extra_)),
+                                   nontrivial=any(a.size > 1 and np.any(a) for a in arrays))
+                    desc = {"op": op.name, "operands": raws, "extra": _js(extra_), "kw": kw,
+                            "out": out_t, "how": how, "expected": _js_ref(ref)}
+                    if kind == "raise":
+                        if report:
+                            dg = diagnose(D, op, combo, "raises", res, None, ref, arrays, args,
+                                          extra_, kw)
+                            site, sig = dg or ("oracle:" + op.name,
+                                               ["raises", list(combo), out_t, res.split(":")[0]])
+                            ctx.violation(
+                                site, sig,
+                                "%s[%s -> %s] raises %s on well-shaped operands" % (
+                                    op.name, ",".join(combo), out_t, res), desc)
+                        continue
+                    bad = compare_result(D, op, res, ref, out_t, args, arrays, extra_, kw)
+                    if bad and report:
+                        desc["got"] = _js_ref(result_to_array(D, res))
+                        dg = diagnose(D, op, combo, bad[0], bad[1], res, ref, arrays, args,
+                                      extra_, kw)
+                        site, sig = dg or ("oracle:" + op.name, [bad[0], list(combo), out_t])
+                        ctx.violation(site, sig,
+                                      "%s[%s -> %s]: %s" % (op.name, ",".join(combo), out_t, bad[1]),
+                                      desc)
+                    if len(ctx.cov["samples"]) < 3 and it > 5:
+                        ctx.sample({"oracle_case": {"op": op.name, "types": list(combo),
+                                                    "out": out_t, "operands": raws,
+                                                    "expected": _js_ref(ref)}})
+            return nchk
+
+        n += check(extra, True)
+        if op.more:
+            for extra2 in op.more(rng, shapes, extra)[:12]:
+                n += check(tuple(extra2), False)
+                dist["oracle_more_args"] = dist.get("oracle_more_args", 0) + 1
         # approx ops: all formats must agree with each other *exactly*? No:
         # different summation orders are legitimate; validated with tolerance.
         # shape-mismatch stream
@@ -696,10 +779,11 @@ def oracle(ctx, D, budget_cases, rng, report=True, only=None, tag=0):
                 bshapes, bextra = bs
                 barrays = [gen_matrix(rng, s, rng.choice(["sparse", "dense"])) for s in bshapes]
                 for combo in combos:
-                    reps = [rng.choice([r for r in REPRS if r[0] == t]) for t in combo]
+                    reps = [pick_rep(rng, t) for t in combo]
                     out_t = rng.choice(outs)
                     how = rng.choice(["call", "lookup"])
-                    kind, res, raws, _ = run_op_case(D, op, barrays, reps, bextra, kw, out_t, rng, how)
+                    kind, res, raws, _, how = run_op_case(D, op, barrays, reps, bextra, kw, out_t,
+                                                          rng, how)
                     n += 1
                     ctx.count_case(("oracle-malformed", op.name, combo, out_t, it, tag))
                     dist["oracle_malformed"] = dist.get("oracle_malformed", 0) + 1
@@ -755,6 +839,25 @@ def compare_result(D, op, res, ref, out_t, args, arrays, extra, kw):
                     "tidyup(tol=%s, inplace=%s) result differs from the element-wise rule" % extra)
         if not extra[1] and not np.array_equal(args[0].to_array(), arrays[0]):
             return ("input-modified", "tidyup(inplace=False) modified its argument")
+        return None
+    if op.name == "split_columns":
+        if not isinstance(res, list) or len(res) != ref.shape[1]:
+            return ("wrong-shape", "split_columns returned %r pieces" % (
+                len(res) if isinstance(res, list) else type(res),))
+        for k, x in enumerate(res):
+            if not isinstance(x, D.Data) or x.shape != (ref.shape[0], 1) \
+                    or not np.array_equal(x.to_array(), ref[:, k:k + 1]):
+                return ("wrong-entries", "column %d differs" % k)
+        if not np.array_equal(args[0].to_array(), arrays[0]):
+            return ("input-modified", "split_columns modified its argument")
+        return None
+    if op.name == "matmul[out]":
+        got = res.to_array() if isinstance(res, D.Data) else None
+        if got is None or got.shape != ref.shape or not np.array_equal(got, ref):
+            return ("wrong-entries", "matmul(l, r, scale, out) returned something else than "
+                                     "out + scale*l@r")
+        if not np.array_equal(args[2].to_array(), ref):
+            return ("out-not-updated", "the caller's `out` does not hold the result")
         return None
     if op.scalar:
         if isinstance(ref, (bool, np.bool_)):
@@ -866,6 +969,12 @@ def diagnose(D, op, combo, symptom, msg, res, ref, arrays, args, extra, kw):
         if nm == "matmul_outer" and symptom == "wrong-entries" and extra[0] != 1:
             if np.array_equal(res.to_array(), arrays[0] @ arrays[1]):
                 return ("matmul_outer.scale", "scale-ignored")
+        if nm == "matmul[out]" and combo[0] == "CSR" and symptom in ("wrong-entries",
+                                                                     "out-not-updated"):
+            if args[1].fortran and not args[2].fortran and min(ref.shape) > 1:
+                wrong = ref.ravel(order="F").reshape(ref.shape)
+                if np.array_equal(args[2].to_array(), wrong):
+                    return ("matmul_csr_dense_dense.out_order", "fortran-buffer-copied-into-c-out")
         if nm == "inner" and symptom == "accepted":
             l, r = arrays
             if (l.shape[0] == 1 or l.shape[1] == 1) and r.shape[1] == 1 \
